@@ -142,3 +142,85 @@ Proof.
     - destruct (translate_status fuel t _ (et_program t)); try discriminate. apply Hfin, H. }
   exact (external_shape _ _ _ _ _ t w pbs Hd pb).
 Qed.
+
+(* ---------- the statement forms of Properties/C09tasks.v ---------- *)
+Theorem ext_task_in_pipeline fuel t w pbs pb :
+  external_decompose_full fuel t = XOk w pbs -> In pb pbs ->
+  exists raw d pb', In pb' (pipeline raw d) /\ pb_formulas pb = pb_formulas pb'.
+Proof. intros E H. destruct (ext_task_shape fuel t w pbs pb E H) as (raw & d & pb' & A & B & _). eauto. Qed.
+Theorem strong_task_one_conjecture_names fuel t pbs pb :
+  strong_decompose_full_fuel fuel t = SOk pbs -> In pb pbs ->
+  wt_one_conjecture (emit pb) = true /\ NoDup (map pf_name (pb_formulas pb)).
+Proof. intros E H. exact (shape_one_conjecture_names pb (strong_task_shape fuel t pbs pb E H)). Qed.
+Theorem ext_task_one_conjecture_names fuel t w pbs pb :
+  external_decompose_full fuel t = XOk w pbs -> In pb pbs ->
+  wt_one_conjecture (emit pb) = true /\ NoDup (map pf_name (pb_formulas pb)).
+Proof. intros E H. exact (shape_one_conjecture_names pb (ext_task_shape fuel t w pbs pb E H)). Qed.
+
+Theorem strong_task_text fuel t pbs pb : strong_task_ok t = true ->
+  strong_decompose_full_fuel fuel t = SOk pbs -> In pb pbs -> ~ (ident_ok pb = false) ->
+  exists txt tp, problem_display pb = Some txt /\ read_problem txt = Some tp /\ wt_problem tp = true.
+Proof. intros H E Hpb. exact (task_problem_text pb (strong_task_problem_ok fuel t pbs pb H E Hpb)). Qed.
+Theorem ext_task_text fuel t w pbs pb : ext_task_ok t = true ->
+  external_decompose_full fuel t = XOk w pbs -> In pb pbs -> ~ (ident_ok pb = false) ->
+  exists txt tp, problem_display pb = Some txt /\ read_problem txt = Some tp /\ wt_problem tp = true.
+Proof. intros H E Hpb. exact (task_problem_text pb (ext_task_problem_ok fuel t w pbs pb H E Hpb)). Qed.
+Theorem strong_task_reads fuel t pbs pb txt : strong_task_ok t = true ->
+  strong_decompose_full_fuel fuel t = SOk pbs -> In pb pbs -> ~ (ident_ok pb = false) ->
+  problem_display pb = Some txt -> read_problem txt = Some (emit pb) /\ wt_problem (emit pb) = true.
+Proof. intros H E Hpb. exact (task_problem_reads pb (strong_task_problem_ok fuel t pbs pb H E Hpb) txt). Qed.
+Theorem ext_task_reads fuel t w pbs pb txt : ext_task_ok t = true ->
+  external_decompose_full fuel t = XOk w pbs -> In pb pbs -> ~ (ident_ok pb = false) ->
+  problem_display pb = Some txt -> read_problem txt = Some (emit pb) /\ wt_problem (emit pb) = true.
+Proof. intros H E Hpb. exact (task_problem_reads pb (ext_task_problem_ok fuel t w pbs pb H E Hpb) txt). Qed.
+
+Theorem strong_task_meaning fuel t pbs pb a : strong_task_ok t = true ->
+  strong_decompose_full_fuel fuel t = SOk pbs -> In pb pbs -> ident_ok pb = true -> In a (pb_formulas pb) ->
+  exists g : tff_formula, tff_read (print_formula (pf_formula a)) = Some g /\
+    forall (FI : Sat.fint) (M : Sat.pint) (e : Sat.env),
+      tff_sat (tstruct_in (csig_of_decls (tp_decls (emit pb))) FI M) (tenv_of e) g <-> Sat.csat FI M e (pf_formula a).
+Proof. intros H E Hpb. exact (task_problem_meaning pb (strong_task_problem_ok fuel t pbs pb H E Hpb) a). Qed.
+Theorem ext_task_meaning fuel t w pbs pb a : ext_task_ok t = true ->
+  external_decompose_full fuel t = XOk w pbs -> In pb pbs -> ident_ok pb = true -> In a (pb_formulas pb) ->
+  exists g : tff_formula, tff_read (print_formula (pf_formula a)) = Some g /\
+    forall (FI : Sat.fint) (M : Sat.pint) (e : Sat.env),
+      tff_sat (tstruct_in (csig_of_decls (tp_decls (emit pb))) FI M) (tenv_of e) g <-> Sat.csat FI M e (pf_formula a).
+Proof. intros H E Hpb. exact (task_problem_meaning pb (ext_task_problem_ok fuel t w pbs pb H E Hpb) a). Qed.
+
+Theorem strong_task_text_meaning fuel t pbs pb txt tp : strong_task_ok t = true ->
+  strong_decompose_full_fuel fuel t = SOk pbs -> In pb pbs -> ident_ok pb = true ->
+  problem_display pb = Some txt -> read_problem txt = Some tp ->
+  (exists ds fs, tp_decls tp = pre_decls_tff ++ ds /\ tp_formulas tp = pre_named_tff ++ fs) /\
+  forall a, In a (pb_formulas pb) ->
+  exists nf : tff_named, In nf (tp_formulas tp) /\ n_name nf = pf_name a /\ n_role nf = tff_role_of (pf_role a) /\
+    forall (FI : Sat.fint) (M : Sat.pint) (e : Sat.env),
+      tff_sat (tstruct_in (csig_of_decls (tp_decls tp)) FI M) (tenv_of e) (n_formula nf) <-> Sat.csat FI M e (pf_formula a).
+Proof.
+  intros H E Hpb Hid Hd Hr. pose proof (strong_task_problem_ok fuel t pbs pb H E Hpb) as Hok. split.
+  - exact (task_problem_preamble pb Hok txt tp Hid Hd Hr).
+  - exact (task_problem_text_meaning pb Hok txt tp Hid Hd Hr).
+Qed.
+Theorem ext_task_text_meaning fuel t w pbs pb txt tp : ext_task_ok t = true ->
+  external_decompose_full fuel t = XOk w pbs -> In pb pbs -> ident_ok pb = true ->
+  problem_display pb = Some txt -> read_problem txt = Some tp ->
+  (exists ds fs, tp_decls tp = pre_decls_tff ++ ds /\ tp_formulas tp = pre_named_tff ++ fs) /\
+  forall a, In a (pb_formulas pb) ->
+  exists nf : tff_named, In nf (tp_formulas tp) /\ n_name nf = pf_name a /\ n_role nf = tff_role_of (pf_role a) /\
+    forall (FI : Sat.fint) (M : Sat.pint) (e : Sat.env),
+      tff_sat (tstruct_in (csig_of_decls (tp_decls tp)) FI M) (tenv_of e) (n_formula nf) <-> Sat.csat FI M e (pf_formula a).
+Proof.
+  intros H E Hpb Hid Hd Hr. pose proof (ext_task_problem_ok fuel t w pbs pb H E Hpb) as Hok. split.
+  - exact (task_problem_preamble pb Hok txt tp Hid Hd Hr).
+  - exact (task_problem_text_meaning pb Hok txt tp Hid Hd Hr).
+Qed.
+
+(* mu: conditional on the representation step *)
+Theorem strong_task_text_partial fuel t pbs pb :
+  repr_sentences t (st_left t) -> repr_sentences t (st_right t) ->
+  strong_decompose_full_fuel fuel t = SOk pbs -> In pb pbs -> ~ (ident_ok pb = false) ->
+  exists txt tp, problem_display pb = Some txt /\ read_problem txt = Some tp /\ wt_problem tp = true.
+Proof.
+  intros Hl Hr E Hpb. apply task_problem_text.
+  destruct (strong_full_sentences_partial fuel t pbs pb Hl Hr E Hpb) as [raw [Hin Hs]].
+  exists raw, (st_decomposition t), pb. auto.
+Qed.
